@@ -24,6 +24,7 @@ RULE = ("part1: enumerated table SeqNum value a x offset k (k in 0..130 and 3260
         "insert, or containing an insert exactly at offset -w, -(w+1), +w, +(w+1); distinct by (w, start, ops). "
         "part3: datagram arrival histories at a real ConnectionBase; every built header's ack/ack_bits vs the "
         "model's accepted set; non-trivial = history with a gap, a reordering and a duplicate.")
+RULE += (" " + "msgwin: a message that was never received is never treated as a duplicate, inside the 256-entry message window or older than it (a retransmission keeps its message number however many newer messages overtook it); only 'received before and now older than the window' is left to C04 (D3).")
 ASSUMPTIONS = [
     "sequence offsets are < half the ring (|k| <= 32767), the property's own precondition",
     "the reference models (ring arithmetic, window as a set) are written from docs/network.md and are trusted",
